@@ -309,7 +309,7 @@ def main():
         if m in closure or m in rep.get('props_skipped', []): continue
         closure.append(m)
         todo += re.findall(r'use crate::props::(\w+)::', open(os.path.join(VF, 'props', m + '.rs')).read())
-    pmods = ['props::' + p for p in sorted(closure)] + (['lem', 'alg'] if closure else [])
+    pmods = ['props::' + p for p in sorted(closure)] + (['lem', 'alg', 'alg2'] if closure else [])
     if pid == 'C18' and rep.get('unbounded_buffers'):
         print('MACHINERY: buffer fields without a declared C18 bound: %s (needs contract work, not a verdict)' % rep['unbounded_buffers']); sys.exit(2)
     # ---- canaries: the trusted base must not prove false
@@ -324,7 +324,7 @@ def main():
         print(can['stderr'][-1500:]); sys.exit(2)
     # ---- the deductive run
     rl = 40 if tier == 'quick' else 80
-    res = run_verus(gen, mods + pmods, rlimit=rl, timeout=1500)
+    res = run_verus(gen, mods + pmods, rlimit=rl, timeout=600)
     if res['json'] is None:
         print('MACHINERY: verus produced no result (rc=%s)\n%s' % (res['rc'], res['stderr'][-3000:])); sys.exit(2)
     vr = res['json']['verification-results']
@@ -332,7 +332,7 @@ def main():
         print('MACHINERY: verus rejected the generated text (unsupported construct or contract text out of date)\n%s' % res['stderr'][-3000:]); sys.exit(2)
     errs = parse_stderr(res['stderr'])
     if any(is_rlimit(e) for e in errs):                       # resource-outs: retry once with a much larger limit
-        res2 = run_verus(gen, mods + pmods, rlimit=rl * 8, timeout=3000)
+        res2 = run_verus(gen, mods + pmods, rlimit=rl * 8, timeout=900)
         if res2['json'] is not None:
             res, errs = res2, parse_stderr(res2['stderr'])
     undecided = [attribute(e, rep, gen_lines) for e in errs if is_rlimit(e)]
